@@ -234,9 +234,15 @@ func OAuthCallback(s *world.Stack, b, provider, state, code, errp string) world.
 	return world.Req{Browser: b, Method: "GET", Path: mount(s) + "/oauth2/callback/" + provider + "?" + v.Encode(), ForceForm: true, Tag: world.Tag{Kind: "oauth_cb", Provider: provider, State: state, Code: code, Err: errp}}
 }
 
-func Open(b string) world.Req { return world.Req{Browser: b, Method: "GET", Path: "/app/open", ForceForm: true, Tag: world.Tag{Kind: "open"}} }
-func Prot(b string) world.Req { return world.Req{Browser: b, Method: "GET", Path: "/app/prot", ForceForm: true, Tag: world.Tag{Kind: "prot"}} }
-func Full(b string) world.Req { return world.Req{Browser: b, Method: "GET", Path: "/app/full", ForceForm: true, Tag: world.Tag{Kind: "full"}} }
+func Open(b string) world.Req {
+	return world.Req{Browser: b, Method: "GET", Path: "/app/open", ForceForm: true, Tag: world.Tag{Kind: "open"}}
+}
+func Prot(b string) world.Req {
+	return world.Req{Browser: b, Method: "GET", Path: "/app/prot", ForceForm: true, Tag: world.Tag{Kind: "prot"}}
+}
+func Full(b string) world.Req {
+	return world.Req{Browser: b, Method: "GET", Path: "/app/full", ForceForm: true, Tag: world.Tag{Kind: "full"}}
+}
 func Put(b, k, v string) world.Req {
 	return world.Req{Browser: b, Method: "GET", Path: "/app/put?k=" + url.QueryEscape(k) + "&v=" + url.QueryEscape(v), ForceForm: true, Tag: world.Tag{Kind: "put"}}
 }
@@ -366,14 +372,14 @@ func TOTPCode(w *world.World, secret string, off time.Duration) string {
 
 // Acct describes an account created directly in the database for an initial state.
 type Acct struct {
-	PID, Password   string
-	Unconfirmed     bool
-	TOTPSecret      string
-	SMSNumber       string
-	RecoveryCodes   []string
-	OTPs            []string
-	Secondary       []string
-	Seed            string
+	PID, Password string
+	Unconfirmed   bool
+	TOTPSecret    string
+	SMSNumber     string
+	RecoveryCodes []string
+	OTPs          []string
+	Secondary     []string
+	Seed          string
 }
 
 // Fixed material for seeded accounts (base32 TOTP secrets, code plaintexts).
